@@ -9,6 +9,7 @@ Spec:   `infoset toks`  = document element a namespace-aware XML processor reads
 Inputs: `document q attrs kids` = START q, ATTR*, content, END q  (`Content` = forest).
 -/
 import XsdataModel.Proofs.Shape
+import XsdataModel.Proofs.Escape
 
 namespace Props.C03
 open Py Xs.Ns Xs.Sax Xs.Writer Spec.XmlNs Spec.EventTree Spec.Hyps
@@ -271,6 +272,26 @@ form the metadata builders produce (`{uri}local` with NCName local part, or a
 bare NCName) `split_qname` returns the expanded name an independent reading gives. -/
 theorem clark_split_agree (q : Str) (n : EName) (h : clark q = some n) : splitQName q = .ok n :=
   Proofs.MapInv.clark_splitQName q n h
+
+/-! ## Hostile text: what `escape` / `quoteattr` write can be read back and carries no markup -/
+
+/-- **escape_inverse**: for every string, character data written through
+`xml.sax.saxutils.escape` contains neither `<` nor `>`, every `&` in it starts one of
+`&amp; &lt; &gt;`, and decoding the references gives the string back. -/
+theorem escape_inverse (s : Str) :
+    decodeRefs (escape s) = some s ∧ '<' ∉ escape s ∧ '>' ∉ escape s := by
+  refine ⟨?_, Proofs.Escape.escape_no_lt s, Proofs.Escape.escape_no_gt s⟩
+  rw [Proofs.Escape.escape_eq]
+  exact Proofs.Escape.decodeRefs_esc s
+
+/-- **quoteattr_inverse**: for every string, `quoteattr` yields `q body q` with `q` one of the two
+quote characters, `body` free of `q`, of `<` and of literal tab / line feed / carriage return (so
+attribute-value normalisation cannot alter it), and decoding the references in `body` gives the
+string back. -/
+theorem quoteattr_inverse (s : Str) :
+    ∃ q body, quoteattr s = q :: body ++ [q] ∧ (q = '"' ∨ q = '\'') ∧ q ∉ body
+      ∧ '<' ∉ body ∧ '\n' ∉ body ∧ '\r' ∉ body ∧ '\t' ∉ body ∧ decodeRefs body = some s :=
+  Proofs.Escape.quoteattr_spec s
 
 /-! ## The state machine equals a recursive writer (all forests, all maps) -/
 
